@@ -188,3 +188,74 @@ func HarnessC13Preempt() {
 	}
 	zz.Observe("end", e.IsRunning(name), under.live(zzObj("ComposedA").GroupVersionKind()), under.live(zzObj("XR").GroupVersionKind()))
 }
+
+// HarnessC13StartRace: two actors and a controller that is not running yet.
+// The first calls Start; while it is inside the function that creates the
+// controller-runtime controller, the second wants to call Start (of the same
+// name), Stop, IsRunning or StartWatches: it runs right there if the engine's
+// lock is free at that point, otherwise once the first call has returned.
+// However they interleave, at most one controller is created for the name
+// per start-stop cycle, and after a final Stop every controller that was
+// started has had its context cancelled.
+//
+//gosym:harness seqgo locks panics
+//gosym:cover second-ran-after stopped
+func HarnessC13StartRace() {
+	under := &zzInformers{}
+	elected := make(chan struct{})
+	close(elected)
+	e := New(&zzMgr{elected: elected}, under, nil, nil)
+	const name = "composite/xrs.example.org"
+	started := make(chan context.Context, 8)
+	created := 0
+
+	op2 := zz.Choose("second.op", 4)
+	ran := false
+	var newCtrl ControllerOption
+	second := func() {
+		switch op2 {
+		case 0:
+			_ = e.Start(name, newCtrl)
+		case 1:
+			_ = e.Stop(context.Background(), name)
+		case 2:
+			_ = e.IsRunning(name)
+		case 3:
+			_ = e.StartWatches(name, zzWatches()[0])
+		}
+	}
+	newCtrl = WithNewControllerFn(func(string, manager.Manager, kcontroller.Options) (kcontroller.Controller, error) {
+		created++
+		if !ran && e.mx.TryLock() {
+			// the second actor can take the engine's lock while the first is
+			// creating its controller
+			e.mx.Unlock()
+			ran = true
+			zz.Cover("second-ran-inside")
+			second()
+		}
+		return &zzCtrl{started: started}, nil
+	})
+
+	zz.Assert("start-no-error", e.Start(name, newCtrl) == nil)
+	if !ran {
+		ran = true
+		zz.Cover("second-ran-after")
+		second()
+	}
+	if op2 == 0 || op2 == 2 || op2 == 3 {
+		zz.Assert("running-after-start", e.IsRunning(name))
+		zz.Assert("one-controller-per-name", created == 1)
+	}
+	zz.Assert("stop-no-error", e.Stop(context.Background(), name) == nil)
+	zz.Cover("stopped")
+	zz.Assert("not-running-after-stop", !e.IsRunning(name))
+	for k := 0; k < created; k++ {
+		select {
+		case ctx := <-started:
+			zz.Assert("every-started-controller-is-cancelled-by-stop", ctx.Err() != nil)
+		default:
+		}
+	}
+	zz.Observe("created", created)
+}
